@@ -7,6 +7,8 @@
 //!   default   a string default containing U+001B
 //!   ifacedir  an interface that implements an interface and carries a directive
 //!   dirarg    a custom directive whose argument has a description
+//!   entity    federation entities: an #[graphql(entity)] resolver, so the registry holds _Any, _Entity,
+//!             _Service and the root fields _service / _entities
 use async_graphql::*;
 use serde_json::{Value as J, json};
 
@@ -197,17 +199,44 @@ mod dirarg {
     pub fn sdl(o: SDLExportOptions) -> String { Schema::build(Query, EmptyMutation, EmptySubscription).finish().sdl_with_options(o) }
 }
 
+// ---- entity -----------------------------------------------------------------------------------------
+mod entity {
+    use super::*;
+    #[derive(SimpleObject)]
+    pub struct Product {
+        pub id: i32,
+        /// Display name.
+        pub name: String,
+    }
+    pub struct Query;
+    #[Object]
+    impl Query {
+        async fn top(&self) -> Option<Product> { None }
+        #[graphql(entity)]
+        async fn find_product_by_id(&self, id: i32) -> Product { Product { id, name: "p".into() } }
+    }
+    pub fn mirror() -> J {
+        json!({"query": "Query", "mutation": "", "subscription": "", "federation": {"entities": ["Product"]},
+            "types": {
+                "Product": with(with(ty("OBJECT"), "keys", json!(["id"])), "fields", json!({
+                    "id": {"ty": nn(named("Int")), "args": {}},
+                    "name": {"ty": nn(named("String")), "args": {}, "description": cp("Display name.")}})),
+                "Query": with(ty("OBJECT"), "fields", json!({"top": {"ty": named("Product"), "args": {}}}))}})
+    }
+    pub fn sdl(o: SDLExportOptions) -> String { Schema::build(Query, EmptyMutation, EmptySubscription).finish().sdl_with_options(o) }
+}
+
 pub fn mirror(name: &str) -> J {
     match name {
         "plain" => plain::mirror(), "reason" => reason::mirror(), "default" => default::mirror(),
-        "ifacedir" => ifacedir::mirror(), "dirarg" => dirarg::mirror(),
+        "ifacedir" => ifacedir::mirror(), "dirarg" => dirarg::mirror(), "entity" => entity::mirror(),
         _ => vh::io::tool_error(&format!("no static schema {name}")),
     }
 }
 pub fn sdl(name: &str, opts: SDLExportOptions) -> String {
     match name {
         "plain" => plain::sdl(opts), "reason" => reason::sdl(opts), "default" => default::sdl(opts),
-        "ifacedir" => ifacedir::sdl(opts), "dirarg" => dirarg::sdl(opts),
+        "ifacedir" => ifacedir::sdl(opts), "dirarg" => dirarg::sdl(opts), "entity" => entity::sdl(opts),
         _ => vh::io::tool_error(&format!("no static schema {name}")),
     }
 }
